@@ -47,7 +47,7 @@ def choiceName : C06.Choice → String
 
 def refStep (r : IRef) (t0 : List String) (obs : String) : IRef × String :=
   if obs = "none-in-flight" then (r, "-") else
-  match (resolveFrom (r.msgs.map (·.sender)) t0).getD t0 with
+  match (resolveFrom (r.msgs.map (·.sender)) t0 (r.msgs.map (·.bytes.isEmpty))).getD t0 with
   | "ikeys" :: _ => (({ keys := (obs.splitOn ",").filterMap Bytes.ofHex } : IRef), "-")
   | "iparty-cfg" :: name :: fs =>
     -- the real configuration path: cipher list "plain"; without configured trusted keys a node trusts its own key only
